@@ -259,8 +259,7 @@ def pipe_units(prop, san=False):
                 if tier == "thorough":   # the extended alphabet (9 more operations: roll, repeat, pad, take, broadcast_to, cumsum, multiply, matmul, atleast_nd<ct4>) at depth 2
                     for f2 in ([f] if f < 12 else []) + ([12 + f] if f < 9 else []):
                         us.append(U("pipe_x_k%d_f%d" % (k, f2), "harness/c_pipeline.cpp", opt="-O0", family="pipe", shards=1, tiers=["thorough"],
-                                    flags=["-DPIPE_PROP=%d" % prop, "-DPIPE_KIND=%d" % k, "-DPIPE_FIRST=%d" % f2, "-DPIPE_MAXDEPTH=2", "-DPIPE_THOROUGH_OPS"] +
-                                          (["-ftemplate-depth=5000"] if f2 in (7, 10) else [])))   # a run-time reduction as first stage below the extended operations exceeds g++'s default instantiation depth (900)
+                                    flags=["-DPIPE_PROP=%d" % prop, "-DPIPE_KIND=%d" % k, "-DPIPE_FIRST=%d" % f2, "-DPIPE_MAXDEPTH=2", "-DPIPE_THOROUGH_OPS"]))
                 if tier == "quick" and f == 0 and k in (2, 3, 4):   # quick tier: one extended operation (atleast_nd with a constant nd) as first stage, every operation as second
                     us.append(U("pipe_q_x_k%d_f20" % k, "harness/c_pipeline.cpp", opt="-O0", family="pipe", shards=1, tiers=["quick"],
                                 flags=["-DPIPE_PROP=%d" % prop, "-DPIPE_KIND=%d" % k, "-DPIPE_FIRST=20", "-DPIPE_MAXDEPTH=2", "-DPIPE_THOROUGH_OPS"]))
@@ -285,7 +284,8 @@ CHECKS["C11"] = dict(
     level_text="For every view type the explorer instantiates, the statically reported fixed_shape / fixed_dim / fixed_size / bounded_dim / bounded_size of the view type and of its evaluation result type "
                "are compared with every run-time object of that type the menus produce (all shapes under a clipped bound, every dim under a bounded dim); the evaluated result must have the full shape and "
                "values (nothing clipped) and no bounded container may be asked to hold more than its capacity (hook).",
-    units=pipe_units(11), rule="case = program path; non-trivial = the node's view type or result type carries static knowledge and the result has > 1 element; distinct = distinct key",
+    units=pipe_units(11) + [U("ctargs", "harness/c11_ctargs.cpp", opt="-O0", family="ctargs", shards=1)],   # one-stage views with COMPILE-TIME arguments (18 operations x 6 root kinds), view-level and evaluated
+    rule="case = program path; non-trivial = the node's view type or result type carries static knowledge and the result has > 1 element; distinct = distinct key",
     bounds=PIPE_BOUNDS, assumptions=PIPE_ASSUME, min_outcomes=500, require_counts=dict(any=dict(transitions=5000, nodes_with_static_knowledge=2000)),
 )
 CHECKS["C02"] = dict(
